@@ -57,11 +57,13 @@ CLAIMED = {
             "zlib is an oracle tape; Pillow modelled; two ZRLE defects are recorded known findings; strict hextile carry-over reading",
             "Coq model + partial proofs; decided mainly by differential correspondence against an independent RFC 6143 encoder (translation-validation style)"),
     "C12": ("Coq model of the slice of Pillow the client uses (new/paste with clipping/frombytes raw modes/1-bit mask) and of "
-            "updateRectangle/updateDesktopSize/updateCursor; theorems: nocursor makes cursor updates the identity, exact size after a "
-            "desktop-size change (composition theorem PARTIAL, see DESIGN.md); the real client's screen is compared byte-exactly with the "
-            "reference composition and with the model on random histories",
+            "updateRectangle/updateDesktopSize/updateCursor; theorems: for every accepted history of updates, size changes and (nocursor) "
+            "cursor updates from a fresh client the screen equals the reference canvas pixel for pixel and in size (induction over the "
+            "history on a pointwise characterisation of paste), an update changes nothing outside its rectangle, a size change keeps what "
+            "fits, nocursor makes cursor updates the identity; the screen with a drawn cursor shape is decided by the campaign only; the "
+            "real client's screen is compared byte-exactly with the reference composition and with the model on random histories",
             "Pillow trusted and modelled; updates carry exactly w*h pixels",
-            "Coq model + partial proofs + differential correspondence against the reference composition"),
+            "Coq theorems over all histories (composition by induction) + differential correspondence of the model against the real client and the reference composition"),
     "C13": ("Coq theorems: after vncConnectionMade the (format, image mode) pair is an entry of the regenerated PF2IM, native format kept "
             "iff renderable else exactly one SetPixelFormat(RGB32, or BGR16 for 3.889); SetEncodings payload is preferred + pseudo-encodings "
             "exactly as the options say and all decodable; for every accepted format and EVERY pixel value the raw-mode decode yields the "
